@@ -4,7 +4,9 @@ import os
 # `d12` and `d1/sub2` are unmapped siblings whose names extend the name of a directory that gets mapped
 DIRS = ['d1', 'd1/sub', 'd2', 'd2/sub', 'other', 'd1/sub/deep', 'd12', 'd1/sub2', 'other2']
 NAMES = ['a.sqf', 'b.hpp', 'c.sqf', 'inc.hpp']
-VIRTS = ['/x', '/x/y', '/addons/mod', '/', '/x/', 'x\\y', '/z', '/x/y/z']
+# `/x/sub` and `/x/sub/deep`: a nested prefix whose last segment is also the name of a directory below the outer root, so that the
+# inner mapping hides that directory
+VIRTS = ['/x', '/x/y', '/addons/mod', '/', '/x/', 'x\\y', '/z', '/x/y/z', '/x/sub', '/x/sub/deep']
 
 
 class VfsGen:
@@ -42,7 +44,9 @@ class VfsGen:
                 rel = r.choice(under)[len(phys) + 1:]
                 req = v + '/' + rel
             elif k == 'miss' or (k == 'hit' and not under):
-                req = v + '/' + r.choice(['nope.sqf', 'sub/nope.sqf', 'zz/a.sqf'])
+                # also names of files that exist in some other directory: a file that is absent from the directory the
+                # prefix is mapped to is not found, wherever else a file of that name may lie
+                req = v + '/' + r.choice(['nope.sqf', 'sub/nope.sqf', 'zz/a.sqf'] + [nm for nm in NAMES if (phys + '/' + nm) not in files] * 2)
             elif k == 'traverse':
                 rel = r.choice(list(files) or ['d1/a.sqf'])
                 req = r.choice([v + '/../' + rel, v + '/../../' + rel, v + '/sub/../../' + rel, v + '/nothere/../../other/a.sqf',
